@@ -18,9 +18,11 @@ RULE = ('histories of calls on ONE Proxy whose injected connection records every
         'RuleBasedStateMachine with rules {receive an amount via getbalance / getreceivedbyaddress / gettxout / listunspent / getinfo / '
         'fundrawtransaction, the server spelling a drawn satoshi value as fixed 8 digits / stripped / integer / e-8 exponent / E notation; send '
         'an amount via sendtoaddress / sendmany; obtain a hash (getbestblockhash, getblockhash, getrawmempool, generate, generatetoaddress, '
-        'sendrawtransaction) and feed it to getblock / getblockheader / getrawtransaction / gettransaction / gettxout / lockunspent; ship '
+        'sendrawtransaction(+allowhighfees), listunspent(+addrs) outpoints, verbose getblockheader nextblockhash, verbose getrawtransaction '
+        'blockhash) and feed it to getblock / getblockheader(+verbose) / getrawtransaction(+verbose, +block hash) / gettransaction / '
+        'gettxout (+null result -> IndexError) / lockunspent; ship '
         'transactions / headers / blocks both ways; error replies with every registered code, unregistered codes, dict without code / message, '
-        'non-dict errors, error+result, missing result, non-JSON and empty bodies}. Oracles: received == drawn satoshis exactly (int); sent '
+        'non-dict errors, error+result, missing result, non-JSON and empty bodies, no HTTP response}. Oracles: received == drawn satoshis exactly (int); sent '
         'JSON token x 10^8 == satoshis exactly (Decimal); hash hex on the wire == byte-reversed hex and identical between the call that '
         'returned it and the call that uses it; object hex == reference encoding; error => JSONRPCError subclass registered for the code '
         '(documented IndexError translations accepted for their code only), never a result; request ids strictly increase across the whole '
@@ -180,11 +182,37 @@ class World:
                 self.reply('["%s"]' % wire); got = list(self.call(method, p.generate, 1))[0]
             elif method == 'generatetoaddress':
                 self.reply('["%s"]' % wire); got = list(self.call(method, p.generatetoaddress, 1, ADDR))[0]
+            elif method in ('listunspent-txid', 'listunspent-addrs-txid'):
+                self.reply('[{"txid":"%s","vout":4,"scriptPubKey":"0014%s","amount":0.5,"confirmations":3}]' % (wire, '11' * 20))
+                if method == 'listunspent-txid':
+                    r = self.call(method, p.listunspent)
+                else:
+                    r = self.call(method, p.listunspent, 1, 99, [ADDR])
+                    if self.sent()['params'] != [1, 99, [ADDR]]:
+                        raise Violation('params/listunspent', 'listunspent(1, 99, [addr]) sent params %r' % (self.sent()['params'],))
+                got = r[0]['outpoint'].hash
+                if r[0]['outpoint'].n != 4 or r[0]['amount'] != 50000000 or bytes(r[0]['scriptPubKey']) != bytes.fromhex('0014' + '11' * 20):
+                    raise Violation('object/listunspent', 'listunspent entry without an address came back as %r' % (r[0],))
+            elif method == 'getblockheader-verbose-next':
+                self.reply('{"confirmations":2,"height":7,"mediantime":9,"nextblockhash":"%s","chainwork":"00ff01"}' % wire)
+                r = self.call(method, p.getblockheader, b'\x07' * 32, True)
+                got = r['nextblockhash']
+                if self.sent()['params'] != ['07' * 32, True] or r['chainwork'] != b'\x00\xff\x01' or (r['confirmations'], r['height'], r['mediantime']) != (2, 7, 9):
+                    raise Violation('object/getblockheader-verbose', 'verbose header info %r for params %r' % (r, self.sent()['params']))
+            elif method == 'getrawtransaction-verbose-blockhash':
+                tx = {'version': 2, 'vin': [(b'\x03' * 32, 1, b'', 0xffffffff)], 'vout': [(5, b'\x51')], 'wit': [[b'w']], 'locktime': 0}
+                self.reply('{"hex":"%s","txid":"%s","version":2,"locktime":0,"vin":[],"vout":[],"blockhash":"%s","confirmations":3}' % (
+                    W.enc_tx(tx).hex(), W.txid(tx)[::-1].hex(), wire))
+                r = self.call(method, p.getrawtransaction, b'\x09' * 32, True)
+                got = r['blockhash']
+                if self.sent()['params'] != ['09' * 32, 1] or r['tx'].serialize() != W.enc_tx(tx) or r.get('confirmations') != 3:
+                    raise Violation('object/getrawtransaction-verbose', 'verbose transaction info differs from what was served (params %r)' % (self.sent()['params'],))
             else:
                 tx = {'version': 1, 'vin': [(b'\x02' * 32, 1, b'\x51', 5)], 'vout': [(2, b'\x52')], 'wit': None, 'locktime': 9}
-                self.reply('"%s"' % wire); got = self.call(method, p.sendrawtransaction, libx.mk_tx(tx))
-                if self.sent()['params'][0] != W.enc_tx(tx).hex():
-                    raise Violation('object/sendrawtransaction', 'transaction hex on the wire differs from its encoding')
+                high = method == 'sendrawtransaction-highfees'
+                self.reply('"%s"' % wire); got = self.call(method, p.sendrawtransaction, libx.mk_tx(tx), *([True] if high else []))
+                if self.sent()['params'] != [W.enc_tx(tx).hex()] + ([True] if high else []):
+                    raise Violation('object/sendrawtransaction', 'transaction hex / parameters on the wire differ: %r' % (self.sent()['params'],))
             if got != h:
                 raise Violation('hash/returned-%s' % method, '%s: wire hex %s returned as %s, expected byte-reversed %s' % (method, wire, bytes(got).hex(), h.hex()))
             self.known.append((bytes(got), wire))
@@ -220,6 +248,32 @@ class World:
             elif method == 'gettransaction':
                 self.reply('{"amount":0}'); self.call(method, p.gettransaction, h)
                 sent = self.sent()['params'][0]
+            elif method == 'getblockheader-verbose':
+                self.reply('{"confirmations":1,"height":0,"mediantime":5,"chainwork":"01"}')
+                r = self.call(method, p.getblockheader, h, True)
+                sent = self.sent()['params'][0]
+                if r['nextblockhash'] is not None or self.sent()['params'][1] is not True:
+                    raise Violation('object/getblockheader-verbose', 'verbose header info without nextblockhash: %r' % (r,))
+            elif method == 'getrawtransaction-verbose':
+                tx = {'version': 1, 'vin': [(b'\x03' * 32, 1, b'', 0)], 'vout': [(5, b'\x51')], 'wit': None, 'locktime': 0}
+                self.reply('{"hex":"%s","txid":"%s","version":1,"locktime":0,"vin":[],"vout":[]}' % (W.enc_tx(tx).hex(), wire))
+                r = self.call(method, p.getrawtransaction, h, True, h)
+                sent = self.sent()['params'][0]
+                if r['blockhash'] is not None or r['tx'].serialize() != W.enc_tx(tx) or self.sent()['params'][1:] != [1, wire]:
+                    raise Violation('object/getrawtransaction-verbose', 'verbose transaction (unconfirmed) %r, params %r' % (r, self.sent()['params']))
+            elif method == 'gettxout-missing':
+                self.reply('null')
+                try:
+                    r = p.gettxout(COutPoint(h, 2), False)
+                except IndexError:
+                    pass
+                except Exception as e:
+                    raise unexpected('call/gettxout-missing', e)
+                else:
+                    raise Violation('object/gettxout-missing', 'gettxout returned %r for a null result' % (r,))
+                sent = self.sent()['params'][0]
+                if self.sent()['params'][1:] != [2, False]:
+                    raise Violation('params/gettxout', 'gettxout(outpoint n=2, includemempool=False) sent %r' % (self.sent()['params'],))
             elif method == 'gettxout':
                 self.reply('{"bestblock":"%s","confirmations":1,"value":0.5,"scriptPubKey":{"hex":"51"}}' % wire)
                 r = self.call(method, p.gettxout, COutPoint(h, 3))
@@ -285,9 +339,11 @@ class World:
                 body = '{"error":null,"id":1}'; exp_code = -343
             elif shape == 'nonjson':
                 body = '<html>502 Bad Gateway</html>'; exp_code = -342
+            elif shape == 'noresponse':
+                body = None; exp_code = -342
             else:
                 body = ''; exp_code = -342
-            self.conn.replies.append(Resp(body.encode(), 500 if shape.startswith('dict') else 200, 'Internal Server Error'))
+            self.conn.replies.append(None if body is None else Resp(body.encode(), 500 if shape.startswith('dict') else 200, 'Internal Server Error'))
             fns = {'getbalance': lambda: p.getbalance(), 'getblock': lambda: p.getblock(b'\x01' * 32), 'getblockheader': lambda: p.getblockheader(b'\x01' * 32),
                    'getrawtransaction': lambda: p.getrawtransaction(b'\x01' * 32), 'gettransaction': lambda: p.gettransaction(b'\x01' * 32),
                    'getblockhash': lambda: p.getblockhash(5), 'sendtoaddress': lambda: p.sendtoaddress(ADDR, 5), 'call': lambda: p.call('foo', 1),
@@ -341,11 +397,14 @@ amounts = st.one_of(st.sampled_from([0, 1, 9, 10, 99999999, 100000000, 100000001
                     st.integers(0, MAXM), st.integers(10 ** 15, MAXM), st.integers(0, 10 ** 9))
 spellings = st.sampled_from(['fixed8', 'stripped', 'integer', 'exp', 'Exp', 'decimal', 'exp-frac'])
 recv_methods = st.sampled_from(['getbalance', 'getreceivedbyaddress', 'gettxout', 'listunspent', 'getinfo', 'fundrawtransaction'])
-hash_sources = st.sampled_from(['getbestblockhash', 'getblockhash', 'getrawmempool', 'generate', 'generatetoaddress', 'sendrawtransaction'])
-hash_sinks = st.sampled_from(['getblock', 'getblockheader', 'getrawtransaction', 'getrawtransaction-in-block', 'gettransaction', 'gettxout', 'lockunspent'])
+hash_sources = st.sampled_from(['getbestblockhash', 'getblockhash', 'getrawmempool', 'generate', 'generatetoaddress', 'sendrawtransaction',
+                                'sendrawtransaction-highfees', 'listunspent-txid', 'listunspent-addrs-txid', 'getblockheader-verbose-next',
+                                'getrawtransaction-verbose-blockhash'])
+hash_sinks = st.sampled_from(['getblock', 'getblockheader', 'getrawtransaction', 'getrawtransaction-in-block', 'gettransaction', 'gettxout', 'lockunspent',
+                              'getblockheader-verbose', 'getrawtransaction-verbose', 'gettxout-missing'])
 err_methods = st.sampled_from(['getbalance', 'getblock', 'getblockheader', 'getrawtransaction', 'gettransaction', 'getblockhash', 'sendtoaddress', 'call',
                                'getbestblockhash', 'gettxout', 'sendrawtransaction'])
-err_shapes = st.sampled_from(['dict', 'dict', 'dict', 'dict+result', 'nocode', 'nomessage', 'string', 'number', 'list', 'noresult', 'nonjson', 'empty',
+err_shapes = st.sampled_from(['dict', 'dict', 'dict', 'dict+result', 'nocode', 'nomessage', 'string', 'number', 'list', 'noresult', 'nonjson', 'empty', 'noresponse',
                               'falsy-dict', 'falsy-string', 'falsy-zero', 'falsy-list', 'falsy-false'])
 codes = st.one_of(st.sampled_from(sorted(REG)), st.sampled_from([-1, -3, -4, -6, -32601, -32700, 0, 1, -342, -343, -344, -345]), st.integers(-40, 5))
 hashes = st.one_of(gen.hash32, st.sampled_from([bytes(31) + b'\x01', b'\x01' + bytes(31), bytes(range(32))]))
